@@ -6,3 +6,8 @@ import FuraxProofs.Props.C13
 #print axioms Furax.C13.reshape_preserves_size
 #print axioms Furax.C13.reshape_rejects_bad_entries
 #print axioms Furax.C13.reshape_literal
+#print axioms Furax.C13.moveaxis_is_permutation
+#print axioms Furax.C13.moveaxis_destinations
+#print axioms Furax.C13.moveaxis_rest_in_order
+#print axioms Furax.C13.moveaxis_transpose_is_inverse
+#print axioms Furax.C13.moveaxis_accepts_only_valid_axes
